@@ -13,6 +13,7 @@
     definitions are tied to those shapes and the property is stated on them.
     No external numerics are involved in this property: there are no hypotheses about scipy. *)
 From Coq Require Import Reals Lra Psatz List.
+Set Warnings "-ambiguous-paths".
 From Coquelicot Require Import Coquelicot.
 From Interval Require Import Tactic.
 From WG Require Import Lib.NumpySem Lib.GridMapsCache Lib.GridMaps.
